@@ -575,16 +575,46 @@ impl WorldA {
                 self.server.remove_connection(id);
                 self.conns[i].present = false;
             }
-            2 => self.server.disconnect(id),
-            3 => self.server.disconnect_all(),
+            2 => {
+                let was = self.server.verif_connection(id).map(|sc| if sc.is_connecting() { "connecting" } else { "connected" });
+                self.server.disconnect(id);
+                if let (Some(was), Some(sc)) = (was, self.server.verif_connection(id)) {
+                    obs.count("oracle.C12.cause_takes_effect");
+                    if !sc.is_disconnected() {
+                        obs.violate("C12", "disconnect-call-had-no-effect", &format!("server/disconnect/{}", was), format!("client {}", id));
+                    }
+                }
+            }
+            3 => {
+                self.server.disconnect_all();
+                for c in &self.conns {
+                    if let Some(sc) = self.server.verif_connection(c.id) {
+                        obs.count("oracle.C12.cause_takes_effect");
+                        if !sc.is_disconnected() {
+                            obs.violate("C12", "disconnect-call-had-no-effect", "server/disconnect_all", format!("client {}", c.id));
+                        }
+                    }
+                }
+            }
             4 => {
                 if let Some(c) = self.conns[i].client.as_mut() {
+                    let was = if c.is_connecting() { "connecting" } else { "connected" };
                     c.disconnect();
+                    // every cause of disconnection takes effect in every live state
+                    obs.count("oracle.C12.cause_takes_effect");
+                    if !c.is_disconnected() {
+                        obs.violate("C12", "disconnect-call-had-no-effect", &format!("client/disconnect/{}", was), format!("conn {}", i));
+                    }
                 }
             }
             5 => {
                 if let Some(c) = self.conns[i].client.as_mut() {
+                    let was = if c.is_connecting() { "connecting" } else { "connected" };
                     c.disconnect_due_to_transport();
+                    obs.count("oracle.C12.cause_takes_effect");
+                    if !c.is_disconnected() {
+                        obs.violate("C12", "disconnect-call-had-no-effect", &format!("client/transport/{}", was), format!("conn {}", i));
+                    }
                 }
             }
             6 => {
@@ -640,7 +670,12 @@ impl WorldA {
             }
             _ => {
                 if let Some(sc) = self.server.verif_connection_mut(id) {
+                    let was = if sc.is_connecting() { "connecting" } else { "connected" };
                     sc.disconnect_due_to_transport();
+                    obs.count("oracle.C12.cause_takes_effect");
+                    if !sc.is_disconnected() {
+                        obs.violate("C12", "disconnect-call-had-no-effect", &format!("server/transport/{}", was), format!("client {}", id));
+                    }
                 }
             }
         }
